@@ -1,4 +1,5 @@
 import GeomV.C13.ProofsTie
+import GeomV.C13.FloatModel
 import Mathlib.Algebra.Order.Ring.Abs
 import Mathlib.Tactic.Ring
 import Mathlib.Tactic.Linarith
@@ -10,8 +11,8 @@ import Mathlib.Tactic.LinearCombination
 `C13_neartie_band_sound` (ProofsTie) assumes a budget `|df² − d²| ≤ κ·d² + η` on the float distance.
 This file derives that budget for the generator's integer grid (`|coordinate| ≤ 2^20`) from the
 STANDARD MODEL of floating-point arithmetic: every `+ − * /` of `distPointToSegment` returns
-`rnd(exact)` with `|rnd x − x| ≤ u·|x|` (`u ≤ 2^-52`; IEEE binary64 round-to-nearest gives `2^-53` in the
-absence of underflow) and integers up to `2^53` are representable (`rnd m = m`); `math.Sqrt` enters
+`rnd(exact)` with `|rnd x − x| ≤ u·|x| + δ` for `|x| ≤ B` (`u ≤ 2^-52`, `δ` the underflow term; IEEE binary64
+round-to-nearest gives `2^-53`, `2^-1075`) and integers up to `2^53` are representable (`rnd m = m`); `math.Sqrt` enters
 through the square of its result only (`(1−u)²·S ≤ df² ≤ (1+u)²·S`, a decidable condition on rationals —
 a correctly rounded square root satisfies it).
 
@@ -22,34 +23,17 @@ Pure arithmetic lemmas here; the property theorems are in `ProofsBudget.lean`.
 set_option linter.unusedVariables false
 namespace GeomV.C13
 
-/-- the standard model of float64 arithmetic for one rounding function -/
-structure StdRnd (u : Rat) (rnd : Rat → Rat) : Prop where
-  rel : ∀ x : Rat, |rnd x - x| ≤ u * |x|
+/-- the standard model of float64 arithmetic WITH underflow, for one rounding function: relative error `u` plus
+absolute error `δ` for every argument up to `B` (IEEE binary64 roundTiesToEven: `u = 2^-53`, `δ = 2^-1075`,
+`B` just below `2^1024`; `ProofsBudget.C13_rne_std` proves it of `C02.rne` with `u = 2^-52`, `δ = 2^-1074`,
+`B = 2^1000`), integers up to `2^53` are fixed, non-negative arguments give non-negative results -/
+structure StdRnd (u δ B : Rat) (rnd : Rat → Rat) : Prop where
+  rel : ∀ x : Rat, |x| ≤ B → |rnd x - x| ≤ u * |x| + δ
   int : ∀ m : Int, |m| ≤ 2 ^ 53 → rnd (m : Rat) = (m : Rat)
+  nonneg : ∀ x : Rat, 0 ≤ x → 0 ≤ rnd x
 
-/-- `dot(v,v)` of `v = pointSubtract(p, q)` as `norm`/`d` compute it (argument of `math.Sqrt`) -/
-def fsum2 (rnd : Rat → Rat) (p q : P) : Rat :=
-  let dx := rnd (p.x - q.x)
-  let dy := rnd (p.y - q.y)
-  rnd (rnd (dx * dx) + rnd (dy * dy))
-
-/-- the argument of `math.Sqrt` in `distPointToSegment(p, a, b)`, every operation rounded by `rnd` -/
-def fsumR (rnd : Rat → Rat) (p a b : P) : Rat :=
-  let vx := rnd (b.x - a.x)
-  let vy := rnd (b.y - a.y)
-  let wx := rnd (p.x - a.x)
-  let wy := rnd (p.y - a.y)
-  let c1 := rnd (rnd (wx * vx) + rnd (wy * vy))
-  if c1 ≤ 0 then fsum2 rnd p a
-  else
-    let c2 := rnd (rnd (vx * vx) + rnd (vy * vy))
-    if c2 ≤ c1 then fsum2 rnd p b
-    else
-      let t := rnd (c1 / c2)
-      fsum2 rnd p ⟨rnd (a.x + rnd (t * vx)), rnd (a.y + rnd (t * vy))⟩
-
-theorem rel_iv {u x r : Rat} (hx : 0 ≤ x) (h : |r - x| ≤ u * |x|) :
-    (1 - u) * x ≤ r ∧ r ≤ (1 + u) * x := by
+theorem rel_iv {u δ x r : Rat} (hx : 0 ≤ x) (h : |r - x| ≤ u * |x| + δ) :
+    (1 - u) * x - δ ≤ r ∧ r ≤ (1 + u) * x + δ := by
   rw [abs_of_nonneg hx] at h
   have h' := abs_le.mp h
   constructor <;> linarith [h'.1, h'.2]
@@ -58,34 +42,45 @@ theorem abs_mul_le' {x y X Y : Rat} (hx : |x| ≤ X) (hy : |y| ≤ Y) : |x * y| 
   rw [abs_mul]
   exact mul_le_mul hx hy (abs_nonneg _) (le_trans (abs_nonneg _) hx)
 
-/-- one coordinate of `p − pb`: four rounded operations, absolute error `16·G·u` -/
-theorem coord_err {u G a p v t tf m pb e : Rat} (hu0 : 0 ≤ u) (hu1 : u ≤ 1 / 8) (hG : 0 ≤ G)
-    (ha : |a| ≤ G) (hp : |p| ≤ G) (hv : |v| ≤ 2 * G) (ht0 : 0 ≤ t) (ht1 : t ≤ 1)
-    (h1 : |tf - t| ≤ u * |t|) (h2 : |m - tf * v| ≤ u * |tf * v|)
-    (h3 : |pb - (a + m)| ≤ u * |a + m|) (h4 : |e - (p - pb)| ≤ u * |p - pb|) :
-    |e - (p - (a + t * v))| ≤ 16 * G * u := by
-  have hGu : 0 ≤ G * u := mul_nonneg hG hu0
-  have h1' : |tf - t| ≤ u := by
+/-- one coordinate of `p − pb`: four rounded operations (`b = c1/c2`, `b*v`, `a + ·`, `p − ·`), absolute error
+`16·G·u + (2G+3)·δ`; the result is at most `7G` in magnitude -/
+theorem coord_err {u δ B G : Rat} {rnd : Rat → Rat} (h : StdRnd u δ B rnd) (hu0 : 0 ≤ u) (hu1 : u ≤ 1 / 8)
+    (hδ0 : 0 ≤ δ) (hδ1 : δ ≤ 1 / 16) (hG : 1 ≤ G) (hB : 8 * G ≤ B) {a p v t : Rat}
+    (ha : |a| ≤ G) (hp : |p| ≤ G) (hv : |v| ≤ 2 * G) (ht0 : 0 ≤ t) (ht1 : t ≤ 1) :
+    |rnd (p - rnd (a + rnd (rnd t * v))) - (p - (a + t * v))| ≤ 16 * G * u + (2 * G + 3) * δ ∧
+      |rnd (p - rnd (a + rnd (rnd t * v)))| ≤ 7 * G := by
+  have hG0 : 0 ≤ G := by linarith
+  have hGu : 0 ≤ G * u := mul_nonneg hG0 hu0
+  have hGδ : 0 ≤ G * δ := mul_nonneg hG0 hδ0
+  have hGδ1 : G * δ ≤ G / 16 := by nlinarith
+  have hGu1 : G * u ≤ G / 8 := by nlinarith
+  have htB : |t| ≤ B := by rw [abs_of_nonneg ht0]; linarith
+  have h1 := h.rel t htB
+  generalize rnd t = tf at *
+  have h1' : |tf - t| ≤ u + δ := by
     rw [abs_of_nonneg ht0] at h1
-    exact le_trans h1 (by nlinarith)
+    refine le_trans h1 ?_
+    nlinarith
   have htf : |tf| ≤ 2 := by
     have : tf = t + (tf - t) := by ring
     rw [this]
     refine le_trans (abs_add_le _ _) ?_
     rw [abs_of_nonneg ht0]; linarith
-  have hA : |tf * v - t * v| ≤ 2 * G * u := by
+  have hA : |tf * v - t * v| ≤ 2 * G * u + 2 * G * δ := by
     have : tf * v - t * v = (tf - t) * v := by ring
     rw [this]
     have := abs_mul_le' h1' hv
     linarith
-  have hB : |tf * v| ≤ 4 * G := by
+  have hB4 : |tf * v| ≤ 4 * G := by
     have := abs_mul_le' htf hv
     linarith
-  have h2' : |m - tf * v| ≤ 4 * G * u := by
+  have h2 := h.rel (tf * v) (by linarith)
+  generalize rnd (tf * v) = m at *
+  have h2' : |m - tf * v| ≤ 4 * G * u + δ := by
     refine le_trans h2 ?_
-    have := mul_le_mul_of_nonneg_left hB hu0
+    have := mul_le_mul_of_nonneg_left hB4 hu0
     linarith
-  have hm : |m - t * v| ≤ 6 * G * u := by
+  have hm : |m - t * v| ≤ 6 * G * u + 2 * G * δ + δ := by
     have : m - t * v = (m - tf * v) + (tf * v - t * v) := by ring
     rw [this]
     refine le_trans (abs_add_le _ _) ?_
@@ -98,11 +93,13 @@ theorem coord_err {u G a p v t tf m pb e : Rat} (hu0 : 0 ≤ u) (hu1 : u ≤ 1 /
     have : m = t * v + (m - t * v) := by ring
     rw [this]
     refine le_trans (abs_add_le _ _) ?_
-    nlinarith
+    linarith
   have ham : |a + m| ≤ 4 * G := by
     refine le_trans (abs_add_le _ _) ?_
     linarith
-  have h3' : |pb - (a + m)| ≤ 4 * G * u := by
+  have h3 := h.rel (a + m) (by linarith)
+  generalize rnd (a + m) = pb at *
+  have h3' : |pb - (a + m)| ≤ 4 * G * u + δ := by
     refine le_trans h3 ?_
     have := mul_le_mul_of_nonneg_left ham hu0
     linarith
@@ -110,22 +107,29 @@ theorem coord_err {u G a p v t tf m pb e : Rat} (hu0 : 0 ≤ u) (hu1 : u ≤ 1 /
     have : pb = (a + m) + (pb - (a + m)) := by ring
     rw [this]
     refine le_trans (abs_add_le _ _) ?_
-    nlinarith
+    linarith
   have hppb : |p - pb| ≤ 6 * G := by
     have : p - pb = p + (-pb) := by ring
     rw [this]
     refine le_trans (abs_add_le _ _) ?_
     rw [abs_neg]; linarith
-  have h4' : |e - (p - pb)| ≤ 6 * G * u := by
+  have h4 := h.rel (p - pb) (by linarith)
+  generalize rnd (p - pb) = e at *
+  have h4' : |e - (p - pb)| ≤ 6 * G * u + δ := by
     refine le_trans h4 ?_
     have := mul_le_mul_of_nonneg_left hppb hu0
     linarith
-  have : e - (p - (a + t * v)) = (e - (p - pb)) + (-(pb - (a + m))) + (-(m - t * v)) := by ring
-  rw [this]
-  refine le_trans (abs_add_le _ _) ?_
-  refine le_trans (add_le_add (abs_add_le _ _) (le_refl _)) ?_
-  rw [abs_neg, abs_neg]
-  linarith
+  constructor
+  · have : e - (p - (a + t * v)) = (e - (p - pb)) + (-(pb - (a + m))) + (-(m - t * v)) := by ring
+    rw [this]
+    refine le_trans (abs_add_le _ _) ?_
+    refine le_trans (add_le_add (abs_add_le _ _) (le_refl _)) ?_
+    rw [abs_neg, abs_neg]
+    linarith
+  · have : e = (p - pb) + (e - (p - pb)) := by ring
+    rw [this]
+    refine le_trans (abs_add_le _ _) ?_
+    linarith
 
 /-- difference of squares against an absolute perturbation: `k·K = 1` (weight of the AM-GM split) -/
 theorem sq_diff_bound {a b E k K : Rat} (hk : 0 ≤ k) (hkK : k * K = 1) (hE : 0 ≤ E)
@@ -151,46 +155,97 @@ theorem sq_diff_bound {a b E k K : Rat} (hk : 0 ≤ k) (hkK : k * K = 1) (hE : 0
   · rw [id1]; linarith
   · rw [id1]; linarith
 
-/-- the three roundings behind the two squares and the square root: relative error `5u` -/
-theorem sum_sqrt_budget {u X Y qx qy S dd : Rat} (hu0 : 0 ≤ u) (hu1 : u ≤ 1 / 8)
-    (hX : 0 ≤ X) (hY : 0 ≤ Y)
-    (hqx : |qx - X| ≤ u * |X|) (hqy : |qy - Y| ≤ u * |Y|) (hS : |S - (qx + qy)| ≤ u * |qx + qy|)
-    (hlo : (1 - u) * (1 - u) * S ≤ dd) (hhi : dd ≤ (1 + u) * (1 + u) * S) :
-    |dd - (X + Y)| ≤ 5 * u * (X + Y) := by
+theorem pow4_lo {u : Rat} (hu0 : 0 ≤ u) (hu1 : u ≤ 1 / 8) :
+    1 - 5 * u ≤ (1 - u) * (1 - u) * ((1 - u) * (1 - u)) := by
+  have h1u : 0 ≤ 1 - u := by linarith
+  nlinarith [mul_nonneg hu0 hu0, mul_nonneg (mul_nonneg hu0 hu0) h1u]
+
+theorem pow4_hi {u : Rat} (hu0 : 0 ≤ u) (hu1 : u ≤ 1 / 8) :
+    (1 + u) * (1 + u) * ((1 + u) * (1 + u)) ≤ 1 + 5 * u := by
+  have huu : u * u ≤ u / 8 := by nlinarith
+  have huuu : u * u * u ≤ u / 64 := by nlinarith [mul_nonneg hu0 hu0]
+  have hu4 : u * u * u * u ≤ u / 512 := by nlinarith [mul_nonneg (mul_nonneg hu0 hu0) hu0]
+  nlinarith
+
+theorem delta_coef_lo {u : Rat} (hu0 : 0 ≤ u) (hu1 : u ≤ 1 / 8) : (1 - u) * (1 - u) * (2 * (1 - u) + 1) ≤ 8 := by
+  have a : (1 - u) * (1 - u) ≤ 1 := by nlinarith
+  have b0 : 0 ≤ 2 * (1 - u) + 1 := by linarith
+  calc (1 - u) * (1 - u) * (2 * (1 - u) + 1) ≤ 1 * (2 * (1 - u) + 1) := mul_le_mul_of_nonneg_right a b0
+    _ ≤ 8 := by linarith
+
+theorem delta_coef_hi {u : Rat} (hu0 : 0 ≤ u) (hu1 : u ≤ 1 / 8) : (1 + u) * (1 + u) * (2 * (1 + u) + 1) ≤ 8 := by
+  have a : (1 + u) * (1 + u) ≤ 2 := by nlinarith
+  have b0 : 0 ≤ 2 * (1 + u) + 1 := by linarith
+  calc (1 + u) * (1 + u) * (2 * (1 + u) + 1) ≤ 2 * (2 * (1 + u) + 1) := mul_le_mul_of_nonneg_right a b0
+    _ ≤ 8 := by linarith
+
+/-- the three roundings behind the two squares and the square root: relative error `5u`, absolute `8δ` -/
+theorem sum_sqrt_budget {u δ B M : Rat} {rnd : Rat → Rat} (h : StdRnd u δ B rnd) (hu0 : 0 ≤ u) (hu1 : u ≤ 1 / 8)
+    (hδ0 : 0 ≤ δ) (hδ1 : δ ≤ 1 / 16) (hM : 1 ≤ M) (hB : 4 * (M * M) ≤ B) {fx fy dd : Rat}
+    (hfx : |fx| ≤ M) (hfy : |fy| ≤ M)
+    (hlo : (1 - u) * (1 - u) * rnd (rnd (fx * fx) + rnd (fy * fy)) ≤ dd)
+    (hhi : dd ≤ (1 + u) * (1 + u) * rnd (rnd (fx * fx) + rnd (fy * fy))) :
+    |dd - (fx * fx + fy * fy)| ≤ 5 * u * (fx * fx + fy * fy) + 8 * δ := by
+  have hX : 0 ≤ fx * fx := mul_self_nonneg _
+  have hY : 0 ≤ fy * fy := mul_self_nonneg _
+  have hMM : 1 ≤ M * M := by nlinarith
+  have hXM : fx * fx ≤ M * M := by
+    have := abs_mul_le' hfx hfx
+    rwa [abs_of_nonneg hX] at this
+  have hYM : fy * fy ≤ M * M := by
+    have := abs_mul_le' hfy hfy
+    rwa [abs_of_nonneg hY] at this
+  have hqx := h.rel (fx * fx) (by rw [abs_of_nonneg hX]; linarith)
+  have hqy := h.rel (fy * fy) (by rw [abs_of_nonneg hY]; linarith)
+  have nqx := h.nonneg _ hX
+  have nqy := h.nonneg _ hY
+  generalize rnd (fx * fx) = qx at *
+  generalize rnd (fy * fy) = qy at *
+  generalize fx * fx = X at *
+  generalize fy * fy = Y at *
   have ⟨x1, x2⟩ := rel_iv hX hqx
   have ⟨y1, y2⟩ := rel_iv hY hqy
   have h1u : 0 ≤ 1 - u := by linarith
   have hF : 0 ≤ X + Y := add_nonneg hX hY
-  have hQ0 : 0 ≤ qx + qy := by
-    have := mul_nonneg h1u hF
-    nlinarith
+  have hQ0 : 0 ≤ qx + qy := add_nonneg nqx nqy
+  have q1 : (1 - u) * (X + Y) - 2 * δ ≤ qx + qy := by linarith
+  have q2 : qx + qy ≤ (1 + u) * (X + Y) + 2 * δ := by linarith
+  have hQB : |qx + qy| ≤ B := by
+    rw [abs_of_nonneg hQ0]
+    have : u * (X + Y) ≤ 1 / 8 * (X + Y) := mul_le_mul_of_nonneg_right hu1 hF
+    linarith
+  have hS := h.rel (qx + qy) hQB
+  have nS := h.nonneg _ hQ0
+  generalize rnd (qx + qy) = S at *
   have ⟨s1, s2⟩ := rel_iv hQ0 hS
-  have q1 : (1 - u) * (X + Y) ≤ qx + qy := by nlinarith
-  have q2 : qx + qy ≤ (1 + u) * (X + Y) := by nlinarith
-  have hS1 : (1 - u) * ((1 - u) * (X + Y)) ≤ S :=
-    le_trans (mul_le_mul_of_nonneg_left q1 h1u) s1
-  have hS2 : S ≤ (1 + u) * ((1 + u) * (X + Y)) :=
-    le_trans s2 (mul_le_mul_of_nonneg_left q2 (by linarith))
+  have hS1 : (1 - u) * ((1 - u) * (X + Y) - 2 * δ) - δ ≤ S := by
+    have := mul_le_mul_of_nonneg_left q1 h1u
+    linarith
+  have hS2 : S ≤ (1 + u) * ((1 + u) * (X + Y) + 2 * δ) + δ := by
+    have := mul_le_mul_of_nonneg_left q2 (show (0 : Rat) ≤ 1 + u by linarith)
+    linarith
   have h1u2 : 0 ≤ (1 - u) * (1 - u) := mul_nonneg h1u h1u
   have h1u2' : 0 ≤ (1 + u) * (1 + u) := mul_nonneg (by linarith) (by linarith)
-  have d1 : (1 - u) * (1 - u) * ((1 - u) * ((1 - u) * (X + Y))) ≤ dd :=
+  have d1 : (1 - u) * (1 - u) * ((1 - u) * ((1 - u) * (X + Y) - 2 * δ) - δ) ≤ dd :=
     le_trans (mul_le_mul_of_nonneg_left hS1 h1u2) hlo
-  have d2 : dd ≤ (1 + u) * (1 + u) * ((1 + u) * ((1 + u) * (X + Y))) :=
+  have d2 : dd ≤ (1 + u) * (1 + u) * ((1 + u) * ((1 + u) * (X + Y) + 2 * δ) + δ) :=
     le_trans hhi (mul_le_mul_of_nonneg_left hS2 h1u2')
-  -- (1-u)^4 ≥ 1 - 4u ≥ 1 - 5u ; (1+u)^4 ≤ 1 + 5u for u ≤ 1/8
-  have p1 : 1 - 5 * u ≤ (1 - u) * (1 - u) * ((1 - u) * (1 - u)) := by nlinarith [mul_nonneg hu0 hu0, mul_nonneg (mul_nonneg hu0 hu0) h1u]
-  have p2 : (1 + u) * (1 + u) * ((1 + u) * (1 + u)) ≤ 1 + 5 * u := by
-    have huu : u * u ≤ u / 8 := by nlinarith
-    have huuu : u * u * u ≤ u / 64 := by nlinarith [mul_nonneg hu0 hu0]
-    have hu4 : u * u * u * u ≤ u / 512 := by nlinarith [mul_nonneg (mul_nonneg hu0 hu0) hu0]
-    nlinarith
-  have e1 : (1 - u) * (1 - u) * ((1 - u) * ((1 - u) * (X + Y))) = ((1 - u) * (1 - u) * ((1 - u) * (1 - u))) * (X + Y) := by ring
-  have e2 : (1 + u) * (1 + u) * ((1 + u) * ((1 + u) * (X + Y))) = ((1 + u) * (1 + u) * ((1 + u) * (1 + u))) * (X + Y) := by ring
+  have p1 := pow4_lo hu0 hu1
+  have p2 := pow4_hi hu0 hu1
+  -- coefficients of δ
+  have c1 := delta_coef_lo hu0 hu1
+  have c2 := delta_coef_hi hu0 hu1
+  have e1 : (1 - u) * (1 - u) * ((1 - u) * ((1 - u) * (X + Y) - 2 * δ) - δ)
+      = ((1 - u) * (1 - u) * ((1 - u) * (1 - u))) * (X + Y) - ((1 - u) * (1 - u) * (2 * (1 - u) + 1)) * δ := by ring
+  have e2 : (1 + u) * (1 + u) * ((1 + u) * ((1 + u) * (X + Y) + 2 * δ) + δ)
+      = ((1 + u) * (1 + u) * ((1 + u) * (1 + u))) * (X + Y) + ((1 + u) * (1 + u) * (2 * (1 + u) + 1)) * δ := by ring
   rw [e1] at d1
   rw [e2] at d2
   have g1 := mul_le_mul_of_nonneg_right p1 hF
   have g2 := mul_le_mul_of_nonneg_right p2 hF
+  have g3 := mul_le_mul_of_nonneg_right c1 hδ0
+  have g4 := mul_le_mul_of_nonneg_right c2 hδ0
   rw [abs_le]
-  constructor <;> nlinarith
+  constructor <;> linarith
 
 end GeomV.C13
